@@ -151,6 +151,11 @@ def mc_job(name, module, cfgs, props, export=True, strict=True, cap_q=None, cap_
     return job
 
 
+STRICT_GENERATED = os.environ.get("VERIF_STRICT_GENERATED", "1") != "0"
+STRICT_QUICK_STEPS = int(os.environ.get("VERIF_STRICT_QUICK_STEPS", "1500"))
+TIER = ["quick"]
+
+
 def run_batch(plan, pid, name, scheds, wd, idx, world=None, monitor=None):
     """Execute schedules on the real code and judge the recorded trace with the TLC monitor."""
     world = world or plan.world
@@ -169,11 +174,15 @@ def run_batch(plan, pid, name, scheds, wd, idx, world=None, monitor=None):
         strict = C.tlc_strict(scheds[0]["cfg"], tp, wd, base="TraceServerStrict")
     if name.startswith("model:") and world == "nc" and "MC_NC_" in name:
         strict = C.tlc_strict_nc(name.split(":")[-1], tp, wd)
+    if not name.startswith("model:") and world == "msg" and STRICT_GENERATED:
+        # generated (seeded-random, boundary, hostile) schedules: the recorded trace must be a behaviour of the model as well
+        strict = C.strict_generated(scheds, tp, wd, max_steps=(STRICT_QUICK_STEPS if TIER[0] == "quick" else None))
     return {"sched_path": sp, "trace_path": tp, "harness": hres, "flags": flags, "cov": cov, "states": states, "tlc_s": dt, "strict": strict}
 
 
 def run_check(pid, tier, replay=None):
     t0 = time.time()
+    TIER[0] = tier
     plan = PLANS[pid]
     wd = C.workdir(pid, fresh=(replay is None))
     os.makedirs(os.path.join(wd, "replays"), exist_ok=True)
@@ -693,7 +702,7 @@ PLANS = {
                      "kind, one client hostile / stalled / disconnected / with a stalled reliable channel; distinct = different step lists, "
                      "non-trivial = at least one delivery and one fault"),
     "C12": Plan("msg", "TraceRenetMon", ["C12"], [("api", g_api)],
-                mc=[mc_job("server_api", "MC_Server", {"quick": ["MC_C12_q1.cfg"], "thorough": ["MC_C12_q1.cfg"]}, ["C12"], strict=False,
+                mc=[mc_job("server_api", "MC_Server", {"quick": ["MC_C12_q1.cfg", "MC_C12_q2.cfg"], "thorough": ["MC_C12_q1.cfg", "MC_C12_q2.cfg"]}, ["C12"], strict=False,
                            cap_q=2500, cap_t=60000)],
                 level="model_checking", assumptions=MSG_ASSUME,
                 rule="sequences of public API calls of RenetServer / RenetClient (table, status, traffic, undecodable packets, local clients): "
